@@ -15,6 +15,16 @@ From PV Require Import Lib.Py Lib.Val Spec.IRSyntax Spec.CfgSpec Spec.IRWf Model
 From Coq Require Import String.
 Open Scope nat_scope.
 
+(* repairs of the verifier proposed in /verif/fixes/C03-verifier-*.diff (false = code as found) *)
+Record vfixes := mk_vfixes {
+  vx_phi_exact : bool;   (* C03-verifier-phi-inputs: set(phi.inputs) == set(predecessors) *)
+  vx_unop : bool;        (* C03-verifier-unop-type *)
+  vx_uses : bool;        (* C03-verifier-uses-match-operands *)
+  vx_phi_all : bool      (* C03-verifier-phi-dominance-all-inputs *)
+}.
+Definition v_as_found := mk_vfixes false false false false.
+Definition v_all_fixed := mk_vfixes true true true true.
+
 Record vstate := mk_vstate { vs_uses : list (list (list vref)); vs_preds : list (list bid) }.
 Definition uses_at (st : vstate) (bi p : nat) : list vref := nth p (nth bi (vs_uses st) []) [].
 Definition preds_at (st : vstate) (bi : nat) : list bid := nth bi (vs_preds st) [].
@@ -27,10 +37,17 @@ Fixpoint all_ok {A} (chk : A -> result unit) (l : list A) : result unit :=
 Definition check (c : bool) (e : result unit) : result unit := if c then Ok tt else e.
 Definition assert_ (c : bool) : result unit := check c (Internal AssertionError).
 
+(* all(f(x) for x in l): stops at the first False, exceptions propagate *)
+Fixpoint all_true {A} (g : A -> result bool) (l : list A) : result bool :=
+  match l with
+  | [] => Ok true
+  | x :: r => b <- g x ;; if b then all_true g r else Ok false
+  end.
 Definition vref_mem (r : vref) (l : list vref) : bool := existsb (vref_eqb r) l.
 Definition last_instr (k : block) : option instr := List.last (map Some (b_ins k)) None.
 
 Section V.
+Variable vx : vfixes.
 Variable m : modul.
 Variable f : func.
 Variable st : vstate.
@@ -70,6 +87,10 @@ Definition phi_get (ins : list (bid * vref)) (b : bid) : option vref :=
 Definition check_phi_inputs (s : site) : result unit :=
   match s_ins s with
   | IPhi _ _ _ ins =>
+      _ <- (if vx_phi_exact vx
+            then assert_ (forallb (fun b => mem_pos b (preds_at st (s_bi s))) (map fst ins)
+                          && forallb (fun b => mem_pos b (map fst ins)) (preds_at st (s_bi s)))
+            else Ok tt) ;;
       all_ok (fun pb => match phi_get ins pb with
                         | None => Internal KeyError
                         | Some r => assert_ (vref_mem r (uses_at st (s_bi s) (s_pos s)))
@@ -94,14 +115,21 @@ Definition instruction_dominates (one : vref) (s : site) : result bool :=
       | Some (bj, q, _) =>
           match s_ins s with
           | IPhi _ _ _ ins =>
-              match find (fun p => vref_eqb (snd p) one) ins with
-              | None => Internal (OtherI 4)             (* RuntimeError *)
-              | Some (pb, _) =>
+              let via pb :=
                   let pj := bidx f pb in
                   if Nat.ltb pj (List.length (f_blocks f))
                   then Ok (dominates_plain bj q pj (block_len pj - 1))
-                  else Internal KeyError
-              end
+                  else Internal KeyError in
+              if vx_phi_all vx then
+                match filter (fun p => vref_eqb (snd p) one) ins with
+                | [] => Internal (OtherI 4)             (* RuntimeError *)
+                | l => all_true via (map fst l)
+                end
+              else
+                match find (fun p => vref_eqb (snd p) one) ins with
+                | None => Internal (OtherI 4)           (* RuntimeError *)
+                | Some (pb, _) => via pb
+                end
           | _ => Ok (dominates_plain bj q (s_bi s) (s_pos s))
           end
       end
@@ -127,6 +155,7 @@ Definition check_call (c : vref) (args : list vref) (rt : option ty) : result un
 Definition check_types (i : instr) : result unit :=
   match i with
   | IBinop _ _ t _ a b => _ <- check (ty_is f a t) (Diag 5) ;; check (ty_is f b t) (Diag 5)
+  | IUnop _ _ t _ a => if vx_unop vx then check (ty_is f a t) (Diag 5) else Ok tt
   | ILoad _ _ _ a _ => check (ty_is f a Ptr) (Diag 5)
   | IStore _ a _ => check (ty_is f a Ptr) (Diag 5)
   | IPhi _ _ t ins => assert_ (forallb (fun p => ty_is f (snd p) t) ins)
@@ -136,17 +165,22 @@ Definition check_types (i : instr) : result unit :=
   | _ => Ok tt
   end.
 
-(* names seen before site s: all block names, then value names in print order *)
-Definition vnames_before (s : site) : list string :=
-  map def_name (instrs_defs (map s_ins (filter (fun s' =>
-      Nat.ltb (s_bi s') (s_bi s) || (Nat.eqb (s_bi s') (s_bi s) && Nat.ltb (s_pos s') (s_pos s)))
-    (sites f)))).
-Definition verify_instruction (s : site) : result unit :=
+(* names seen before the idx-th instruction in print order: all block names, then value names *)
+Definition site_names (s : site) : list string :=
+  match instr_def (s_ins s) with Some d => [def_name d] | None => [] end.
+Definition vnames_before (idx : nat) : list string := flat_map site_names (firstn idx (sites f)).
+Definition verify_instruction (is : nat * site) : result unit :=
+  let (idx, s) := is in
   _ <- match instr_def (s_ins s) with
-       | Some d => assert_ (negb (mem_str (def_name d) (bnames ++ vnames_before s)))
+       | Some d => assert_ (negb (mem_str (def_name d) (bnames ++ vnames_before idx)))
        | None => Ok tt
        end ;;
   _ <- check_types (s_ins s) ;;
+  _ <- (if vx_uses vx
+        then let u := uses_at st (s_bi s) (s_pos s) in
+             assert_ (forallb (fun r => vref_mem r (instr_uses (s_ins s))) u
+                      && forallb (fun r => vref_mem r u) (instr_uses (s_ins s)))
+        else Ok tt) ;;
   all_ok (fun r => d <- instruction_dominates r s ;; assert_ d) (uses_at st (s_bi s) (s_pos s)).
 
 Definition verify_function : result unit :=
@@ -155,8 +189,9 @@ Definition verify_function : result unit :=
   _ <- assert_ (reachable_b f) ;;
   _ <- assert_ (forallb preds_match (enum (f_blocks f))) ;;
   _ <- all_ok check_phi_inputs (sites f) ;;
-  all_ok verify_instruction (sites f).
+  all_ok verify_instruction (enum (sites f)).
 End V.
 
-Definition verify_module (m : modul) (sts : list vstate) : result unit :=
-  all_ok (fun p => verify_function m (fst p) (snd p)) (combine (m_funcs m) sts).
+Definition verify_module_x (vx : vfixes) (m : modul) (sts : list vstate) : result unit :=
+  all_ok (fun p => verify_function vx m (fst p) (snd p)) (combine (m_funcs m) sts).
+Definition verify_module := verify_module_x v_as_found.
